@@ -51,7 +51,7 @@ RULE = (
     " attribute x nested; helper classes (PoolSum, Array*, ComplexSqrt, integral/sum) from"
     " recipes, unknown ones from generic attempts (a class without recipe is a cap); per shape"
     " every single map symbol -> {same-assumption symbol, positive rational, compound"
-    " expression containing the symbol}; pair maps: base shape = neighbouring pairs x 3 target"
+    " expression containing the symbol, exactly 0}; pair maps: base shape = neighbouring pairs x 3 target"
     " combinations + swap (thorough: all pairs of the first 8 symbols x 9 + swap), other"
     " shapes = first pair (symbol inside a nested argument, neighbour) (thorough: first six x"
     " 3 + swap); shapes with a symbolic angular momentum: maps of that symbol only; each map"
@@ -181,8 +181,11 @@ def targets(leaf, pos: int) -> dict:
     if intlike:
         size = base in R._SIZE_NAMES or base.startswith("n_")
         return {"sym": fresh, "num": ["int", R.N_EVENTS if size else 2], "cmp": ["cmp", "inc", [fresh]]}
-    return {"sym": fresh, "num": ["num", f"{7 + 2 * pos}/{3 + pos}"],
-            "cmp": ["cmp", "avg", [["sym", name, a], fresh]]}
+    out = {"sym": fresh, "num": ["num", f"{7 + 2 * pos}/{3 + pos}"],
+           "cmp": ["cmp", "avg", [["sym", name, a], fresh]]}
+    if not any(a.get(k) for k in ("positive", "negative", "nonzero")):
+        out["zero"] = ["int", 0]  # a whole argument becomes exactly 0 (single maps only)
+    return out
 
 
 def enumerate_maps(desc, tier: str, is_base: bool = False) -> list:
@@ -658,6 +661,9 @@ def check_shape(rec: Recorder, desc, tier: str, seed: int, is_base: bool = False
                 lhs = folded.doit()
                 rhs = apply_map(ed, rule, method)
             except Exception as exc:  # noqa: BLE001
+                if label.endswith("->zero") and (isinstance(exc, ZeroDivisionError) or "NaN" in str(exc)):
+                    rec.out("law1:zero-is-a-singular-point(not judged)")
+                    continue
                 rec.bad("1", f"{method}({label}) raised {type(exc).__name__}: {_short(exc)}", desc, known,
                         ["exception", method], {"map": pairs})
                 continue
@@ -675,7 +681,11 @@ def check_shape(rec: Recorder, desc, tier: str, seed: int, is_base: bool = False
                                   f" {R.nonsympy_attrs(folded)} != {attrs}", desc, known, [method, "attribute-lost"],
                             {"map": pairs})
                     continue
-            if lhs == rhs or undummy(lhs) == undummy(rhs):
+            if label.endswith("->zero") and (lhs.has(sp.nan, sp.zoo, sp.oo, -sp.oo) or rhs.has(sp.nan, sp.zoo, sp.oo, -sp.oo)):
+                # 0 is a singular point of the expression (0/0, 1/0): which of the two
+                # orders meets the singularity first is not fixed by the statement
+                rec.out("law1:zero-is-a-singular-point(not judged)")
+            elif lhs == rhs or undummy(lhs) == undummy(rhs):
                 rec.out("law1:structurally-equal")
             else:
                 verdict, how, detail = R.numeric_compare(lhs, rhs, seed)
